@@ -385,6 +385,7 @@ func cmdCheck(args []string) int {
 	var samples []interface{}
 	replayed, reproduced := 0, 0
 	noReach := 0
+	excluded := 0
 	for i, r := range results {
 		s := r.Res.Stats
 		agg.Paths += s.Paths
@@ -419,7 +420,9 @@ func cmdCheck(args []string) int {
 			})
 		}
 		isConfirm := i >= nMain
-		if !isConfirm && !r.Task.NoReach && r.Err == "" && s.ReachWitnesses == 0 && len(r.Res.Findings) == 0 {
+		if !isConfirm && s.ReachWitnesses == 0 && s.ExcludedByKnown > 0 {
+			excluded++
+		} else if !isConfirm && !r.Task.NoReach && r.Err == "" && s.ReachWitnesses == 0 && len(r.Res.Findings) == 0 {
 			// vacuity: unless a known finding excludes the whole task
 			noReach++
 			incompletes = append(incompletes, r.Task.String()+": no reachability witness (vacuous harness?)")
@@ -495,28 +498,29 @@ func cmdCheck(args []string) int {
 			"distinct_nontrivial":           nontrivial,
 			"rule": "one evaluation = one proof obligation (assertion or implicit panic check) or branch-feasibility query sent to the solver; " +
 				"non-trivial = obligations whose negation the engine's own simplifier could not decide and that went to z3/cvc5 (each is a distinct (harness, parameters, path, site))",
-			"exhaustive":            def.Exhaustive != nil && def.Exhaustive(*tier) && exit == 0,
-			"harness_tasks":         len(results),
-			"paths":                 agg.Paths,
-			"ssa_instructions":      agg.Steps,
-			"forks":                 agg.Forks,
-			"merges":                agg.Merges,
-			"merge_aborts":          agg.MergeAborts,
-			"obligations":           agg.Obligations,
-			"decided_by_simplifier": agg.Trivial,
-			"solver_unsat":          agg.SolverUnsat,
-			"solver_sat":            agg.SolverSat,
-			"inconclusive":          agg.Inconclusive,
-			"reach_witnesses":       agg.ReachWitnesses,
-			"feasibility_queries":   agg.FeasQueries,
-			"feasibility_by_model":  agg.FeasByModel,
-			"concretizations":       agg.Concretized,
-			"replays_reproduced":    reproduced,
-			"functions_encoded":     fl,
-			"functions_encoded_n":   len(fl),
-			"bounds":                def.Bounds(*tier),
-			"outside_claim":         def.Outside,
-			"stubs":                 def.Stubs,
+			"exhaustive":                            def.Exhaustive != nil && def.Exhaustive(*tier) && exit == 0,
+			"harness_tasks":                         len(results),
+			"tasks_excluded_by_open_known_findings": excluded,
+			"paths":                                 agg.Paths,
+			"ssa_instructions":                      agg.Steps,
+			"forks":                                 agg.Forks,
+			"merges":                                agg.Merges,
+			"merge_aborts":                          agg.MergeAborts,
+			"obligations":                           agg.Obligations,
+			"decided_by_simplifier":                 agg.Trivial,
+			"solver_unsat":                          agg.SolverUnsat,
+			"solver_sat":                            agg.SolverSat,
+			"inconclusive":                          agg.Inconclusive,
+			"reach_witnesses":                       agg.ReachWitnesses,
+			"feasibility_queries":                   agg.FeasQueries,
+			"feasibility_by_model":                  agg.FeasByModel,
+			"concretizations":                       agg.Concretized,
+			"replays_reproduced":                    reproduced,
+			"functions_encoded":                     fl,
+			"functions_encoded_n":                   len(fl),
+			"bounds":                                def.Bounds(*tier),
+			"outside_claim":                         def.Outside,
+			"stubs":                                 def.Stubs,
 			"solver_time_s": map[string]float64{
 				"incremental_z3": round2(float64(atomic.LoadInt64(&solver.NanosIncr)) / 1e9),
 				"fresh_total":    round2(float64(atomic.LoadInt64(&solver.NanosFresh)) / 1e9),
